@@ -86,6 +86,25 @@ theorem exec_inv : ∀ (f : Nat) (t : Task) (w : World), Inv w.c → RInv (exec 
             · refine andThen_inv (ih _ _ (by exact hw)) ?_
               intro w1 v h1; exact h1
             · exact hw
+          | mvs a b =>
+            try simp only
+            split
+            · refine andThen_inv (ih _ _ (by exact hw)) ?_
+              intro w1 v h1; exact h1
+            · exact hw
+          | pr e t =>
+            try simp only
+            split
+            · exact hw
+            · refine andThen_inv (ih _ _ (by exact hw)) ?_
+              intro w1 v h1; exact h1
+          | fis b =>
+            try simp only
+            refine andThen_inv (ih _ _ (by exact hw)) ?_
+            intro w1 v h1
+            split
+            · exact raise_inv h1
+            · exact h1
           | ec a =>
             try simp only
             split
@@ -230,6 +249,13 @@ theorem exec_inv : ∀ (f : Nat) (t : Task) (w : World), Inv w.c → RInv (exec 
                 split
                 · exact h1
                 · exact ih _ _ h1
+    | moveStr item b =>
+      simp only [exec]
+      refine andThen_inv (ih _ _ hw) ?_
+      intro w1 v h1
+      split
+      · exact raise_inv h1
+      · exact ih _ _ h1
     | fan item dest cur saveCg =>
       simp only [exec]
       split
@@ -257,6 +283,16 @@ theorem exec_inv : ∀ (f : Nat) (t : Task) (w : World), Inv w.c → RInv (exec 
             · exact h1
           · intro w2 v2 h2
             refine ite_inv (by exact h2) (ih _ _ h2)
+    | present env tgt cur =>
+      simp only [exec]
+      split
+      · exact hw
+      · refine ite_inv (crashR_inv hw) ?_
+        refine andThen_inv (ih _ _ hw) ?_
+        intro w1 v h1
+        refine ite_inv (by exact h1) ?_
+        refine ite_inv (by exact h1) ?_
+        exact ite_inv (by exact h1) (ih _ _ h1)
     | command a verb =>
       simp only [exec]
       refine ite_inv (crashR_inv hw) ?_
